@@ -24,6 +24,7 @@ import Golib.Conc.SeqSpecThms
 import Golib.Conc.Instances
 import Golib.Conc.Deadlock
 import Golib.Conc.Callback
+import Golib.Conc.WholeOps
 
 namespace C10
 open Conc
@@ -165,6 +166,63 @@ example :
       (fun s => (s.sh, linOps s.log)) = some ([], []) ∧
     (runActs SeqSpec.mstep (initSt []) [.inv 1 (.put 1 2), .acq 1, .load 1, .inv 2 (.put 3 4), .acq 2]).isNone = true := by
   constructor <;> rfl
+
+/-! ### whole-structure operations never disturb the point operations
+
+  Sort (and every read-only traversal) leaves the *content* — the key → value pairs — unchanged; it is not a
+  point operation and need not even be compared as one, but the point operations must stay linearizable in
+  its presence.  For any object, any content equivalence `E` respected by the point operations and any set
+  `N` of content-neutral operations: the neutral operations can be erased from the linearization. -/
+
+/-- **neutral_ops_never_disturb_point_ops.**  For every schedule of the mutex machine: the shared state is
+    content-equal (`E`) to the sequential replay of the point operations *alone* in linearization order, and
+    every point operation returned what it returns in that replay. -/
+theorem neutral_ops_never_disturb_point_ops (I : σ → Prop) (E : σ → σ → Prop) (N : Op → Bool)
+    (hI : ∀ s op, I s → I (step s op).1)
+    (hN : ∀ s s' op, I s → I s' → E s s' → N op = true → E (step s op).1 s')
+    (hC : ∀ s s' op, I s → I s' → E s s' → N op = false →
+      E (step s op).1 (step s' op).1 ∧ (step s op).2 = (step s' op).2)
+    (init : σ) (h0 : I init) (hE0 : E init init) (sched : List (Act Op)) (s : St σ Op Ret)
+    (h : runActs step (initSt init) sched = some s) :
+    E s.sh (runOps step (pointOps N (linOps s.log)) init) ∧ legal step (pointOps N (linOps s.log)) init :=
+  Conc.neutral_ops_never_disturb step I E N hI hN hC init h0 hE0 sched s h
+
+/-- **sort_never_disturbs_point_ops** (the hypotheses above discharged for the dictionary): whatever Sorts,
+    under whatever comparators, run concurrently with put / get / contains / remove / size / isEmpty / clear,
+    the dictionary holds exactly the entries of the replay of the point operations alone and each of them
+    returned what it returns there — no completed put is lost, no removed key comes back. -/
+theorem sort_never_disturbs_point_ops (sched : List (Act SeqSpec.WOp)) (s : St SeqSpec.MSt SeqSpec.WOp SeqSpec.Fact)
+    (h : runActs SeqSpec.wstep (initSt []) sched = some s) :
+    s.sh.Perm (runOps SeqSpec.wstep (pointOps SeqSpec.isSort (linOps s.log)) []) ∧
+      legal SeqSpec.wstep (pointOps SeqSpec.isSort (linOps s.log)) [] :=
+  SeqSpec.sort_never_disturbs sched s h
+
+/-- non-vacuity: a put overlaps a Sort (descending); the Sort is linearized first, the put survives it -/
+example :
+    (runActs SeqSpec.wstep (initSt [])
+      [.inv 1 (.put 1 10), .acq 1, .load 1, .store 1, .rel 1, .ret 1,
+       .inv 1 (.sort (fun a b => decide (b ≤ a))), .inv 2 (.put 2 20), .acq 1, .load 1, .store 1, .rel 1,
+       .acq 2, .load 2, .store 2, .rel 2, .ret 2, .ret 1]).map
+        (fun s => (s.sh, (pointOps SeqSpec.isSort (linOps s.log)).map (fun x => x.1))) =
+    some ([(1, 10), (2, 20)], [1, 2]) := by rfl
+
+/-- **finding (counter-model: Sort made of two critical sections).**  `snap` and `rebuild` are each a
+    properly locked operation: the schedule is accepted, nothing races, nothing deadlocks, every obligation
+    about single operations holds — and the put of key 9 that completed between them is gone although no
+    remove or clear ever ran.  (Tie A: `C10Gen.writers_single_critical_section` rejects this shape; tie B:
+    `wholeMutators` puts a point operation between the two sections.) -/
+theorem split_sort_undoes_completed_put :
+    ∃ s, runActs SeqSpec.sstep (initSt [(2, 20), (1, 10)]) SeqSpec.splitSortSchedule = some s ∧
+      s.sh = [(1, 10), (2, 20)] ∧ SeqSpec.lookup 9 s.sh = 0 ∧
+      (linOps s.log).map (fun x => x.1) = [1, 2, 1] ∧
+      (∃ l, linOps s.log = [(1, .snap, .ents [(2, 20), (1, 10)]), (2, .pt (.put 9 90), .fact (.val 0)), l]) :=
+  SeqSpec.split_sort_loses_put
+
+/-- with the atomic Sort that interleaving is not a schedule (the put cannot take the lock) -/
+theorem atomic_sort_excludes_that_schedule (lt : Nat → Nat → Bool) :
+    runActs SeqSpec.wstep (initSt [(2, 20), (1, 10)])
+      [.inv 1 (.sort lt), .acq 1, .load 1, .inv 2 (.put 9 90), .acq 2] = none :=
+  SeqSpec.atomic_sort_excludes_that_schedule lt
 
 /-! ### what goes wrong without the lock (the model of a method that forgets it — D18) -/
 
